@@ -831,6 +831,11 @@ def _none_target(f, op):
         for bb, si, pl, rv, sp in f.assigns():
             if isinstance(pl, int) and rv[0] == "use" and op_local(rv[1]) in aliases and not place_projs(op_place(rv[1])):
                 aliases.add(pl)
+        # Option -> Option adaptors that keep None as None (`get(k).map(|e| e.value().clone())`, cloned, as_ref ...)
+        for bb, c in f.calls():
+            if c["args"] and op_local(c["args"][0]) in aliases and place_local(c["dest"]) not in aliases and \
+                    re.search(r"option::Option::<[^>]*>::(map|cloned|copied|as_ref|as_deref|inspect)$", c.get("res") or ""):
+                aliases.add(place_local(c["dest"]))
     # `?` : <Option<T> as Try>::branch(dest) -> ControlFlow; Break arm = None
     for bb, c in f.calls():
         if (c.get("fn") or "").endswith("Try::branch") and c["args"] and op_local(c["args"][0]) in aliases:
@@ -972,10 +977,17 @@ def r3d_who_reads(ctx):
                 continue
             n += 1
             key = "R3d-v|%s|read by %s" % (m, op.fn.root)
+            rootf = ctx.bin.fns.get(op.fn.root)
+            payload = set(re.findall(r"[A-Za-z_][A-Za-z0-9_:]*::[A-Z][A-Za-z0-9_]*", db.maps[m][1])) - {"std::sync::Arc"}
+            carries = rootf is None or any(pt in (rootf.ret or "") for pt in payload) or \
+                any(pt in rootf.local_ty(i) and rootf.local_ty(i).startswith("&mut") for pt in payload for i in range(1, rootf.argc + 1))
             if op.fn.root in setters:
                 r.ok(sample={"cache": m, "read_by": op.fn.root.split("::")[-1]} if len(r.samples) < 5 else None)
             elif key in REVIEWED:
                 r.review(key, REVIEWED[key])
+            elif not carries:
+                # statistics / reports: nothing of the payload's types can leave through the reader's result
+                r.ok(sample={"cache": m, "read_by": op.fn.root.split("::")[-1], "payload_cannot_leave": True} if len(r.samples) < 6 else None)
             else:
                 r.violate(key, "%s reads `%s` (%s) at %s but never stores into it: only %s fill that cache" % (
                     op.fn.root, m, op.method, ctx.bin.span_str(op.call["span"]), sorted(x.split("::")[-1] for x in setters)))
